@@ -144,7 +144,23 @@ class FTPProcessorSession(BaseProcessorSession):
             is_file = False
             self._glob_pattern = urllib.parse.unquote(filename)
         else:
-            is_file = yield from self._prepare_request_file_vs_dir(request)
+            try:
+                is_file = yield from self._prepare_request_file_vs_dir(request)
+            except REMOTE_ERRORS as error:
+                # Same handling as a failed fetch: the error belongs to this
+                # URL and must not unwind the whole pipeline.
+                self._log_error(request, error)
+                self._result_rule.handle_error(self._item_session, error)
+
+                wait_time = self._result_rule.get_wait_time(
+                    self._item_session, error=error
+                )
+
+                if wait_time:
+                    _logger.debug('Sleeping {0}.', wait_time)
+                    yield from asyncio.sleep(wait_time)
+
+                return
 
             self._file_writer_session.process_request(request)
 
@@ -417,7 +433,12 @@ class FTPProcessorSession(BaseProcessorSession):
 
         Coroutine.
         '''
-        files = yield from self._fetch_parent_path(request)
+        try:
+            files = yield from self._fetch_parent_path(request)
+        except REMOTE_ERRORS as error:
+            # The file itself was fetched; permissions are best effort.
+            _logger.debug('Could not list parent directory: {}', error)
+            return
 
         if not files:
             return
